@@ -149,6 +149,7 @@ type hcase struct {
 	workers  int
 	dead     bool         // the scheduler stopped answering; every further op is reported `dead`
 	gids     map[int]bool // goroutines of this scheduler instance
+	co       coordState   // the real coordinator in front of the scheduler (coord_real.go), when it can be linked
 	lastTick bool         // the last settled snapshot had a tick stuck behind a spinning loop
 	nsched   int
 }
@@ -173,7 +174,7 @@ func newCase(workers int) (*hcase, error) {
 			gids[id] = true
 		}
 	}
-	return &hcase{s: s, mc: mc, r: r, workers: workers, gids: gids}, nil
+	return &hcase{s: s, mc: mc, r: r, workers: workers, gids: gids, co: newCoordState(s)}, nil
 }
 
 // table lists the occurrences of a schedule after `last` (the oracle the model is parameterised by).
@@ -463,6 +464,8 @@ func (h *hcase) doOp(t []string) (string, bool) {
 			r = "1"
 		}
 		return fmt.Sprintf("less %s %s %s %s => %s", t[1], t[2], t[3], t[4], r), true
+	case "coord":
+		return h.doCoord(t)
 	case "sched":
 		if len(t) < 6 {
 			return "", false
